@@ -295,6 +295,43 @@ def polarity(cond, atom):
     return None
 
 
+def r10_repeatable_builtins(chk, prog, rule='R10'):
+    """built-in arguments that a command line legitimately repeats - the end-of-value-list marker (one per value
+    list) and the two listing arguments - are defined WITHOUT the default 'at most once' cardinality: the function
+    that creates them calls setCardinality() (no check object) before the argument is registered, on every path"""
+    repeatable = ('endValueList', 'listArgVars', 'listArgGroups')
+    n = 0
+    for f in prog.functions:
+        if f.classq != 'celma::prog_args::Handler' or f.body is None or not f.short.startswith('addArgument'):
+            continue
+        lam_calls = set()
+        for x in f.walk():
+            if x.get('k') == 'LambdaExpr':
+                lam_calls |= {(c.get('callee') or '').split('::')[-1] for c in walk(x) if c.get('k') in CALL_KINDS}
+        # the extractor may keep lambda bodies as separate functions: fall back to the call operator
+        if not lam_calls:
+            for g in prog.functions:
+                if g.short == 'operator()' and g.file == f.file and f.line <= g.line <= f.d.get('endline', f.line):
+                    lam_calls |= {(c.get('callee') or '').split('::')[-1] for c in g.calls()}
+        hit = [r for r in repeatable if r in lam_calls]
+        if not hit or not any(callee_is(c, 'TypedArgCallable::TypedArgCallable') or
+                              'TypedArgCallable' in (c.get('t') or '') for c in f.walk() if c.get('k') == 'CXXNewExpr'
+                              or c.get('k') in CALL_KINDS):
+            continue
+        n += 1
+        reg = [c for c in f.calls() if callee_is(c, 'Handler::internAddArgument') or callee_is(c, 'Handler::addArgument')]
+        card = [c for c in f.calls() if callee_is(c, 'setCardinality') and
+                all(a.get('defarg') or strip_all_casts(a).get('k') in ('CXXNullPtrLiteralExpr', 'GNUNullExpr',
+                                                                       'CXXDefaultArgExpr') for a in call_args(c))]
+        cpos = {f.cfg.position(c) for c in card}
+        seen = f.cfg.reach(f.cfg.entry_pos(), lambda pos, e: pos in cpos)
+        ok = bool(card) and bool(reg) and not any(f.cfg.position(c) in seen for c in reg)
+        chk.check(ok, rule, f.name, 'the built-in argument that calls %s() may be used any number of times '
+                  '(setCardinality() before it is registered)' % hit[0], f.loc(),
+                  'it keeps the default cardinality "at most once": its second use on a command line is refused')
+    chk.require(n >= 3, 'repeatable built-in arguments found: %d' % n)
+
+
 def run(chk):
     prog, units = rules.prog_args_program()
     chk.units = units
@@ -332,6 +369,8 @@ def run(chk):
     from . import c06
     chk.rule('R9', 'unique-data of fixed-size destinations never refuses a value because of an unused element', 3)
     c06.r3_unique_prefix(chk, prog, 'R9')
+    chk.rule('R10', 'repeatable built-in arguments have no upper cardinality', 3)
+    r10_repeatable_builtins(chk, prog)
     sub = type(chk)(chk.pid, chk.tier)
     sub._known = []
     c02.r3_canonical_key(sub, prog)
